@@ -38,16 +38,18 @@ Definition tc_adds (s : tc) (ks : list K) : tc := fold_left tc_add ks s.
 Inductive tc_op :=
 | Add (k : K)
 | UpdateIter (ks : list K)
-| UpdateMap (kcs : list (K * nat)).
+| UpdateMap (kcs : list (K * nat))
+| UpdateBoth (first : tc_op) (kw : list (K * nat)).   (* update(source, **kw): the source, then the keywords *)
 
 Definition expand (kcs : list (K * nat)) : list K :=
   flat_map (fun kc => repeat (fst kc) (snd kc)) kcs.
 
-Definition op_keys (o : tc_op) : list K :=
+Fixpoint op_keys (o : tc_op) : list K :=
   match o with
   | Add k => [k]
   | UpdateIter ks => ks
   | UpdateMap kcs => expand kcs
+  | UpdateBoth first kw => op_keys first ++ expand kw
   end.
 
 Definition tc_step (s : tc) (o : tc_op) : tc := tc_adds s (op_keys o).
